@@ -76,3 +76,99 @@ def observe_frame(vec: Dict[str, Any]) -> Dict[str, Any]:
         obs[mode] = run_validate(schema, df, proj.frame, **kw)
         obs[mode]["input_unchanged"] = proj.snapshot(df) == snap0
     return obs
+
+
+def _kw(vec):
+    opts = vec.get("opts", {})
+    kw = {}
+    for k in ("lazy", "inplace", "head", "tail", "sample", "random_state"):
+        if opts.get(k) is not None:
+            kw[k] = opts[k]
+    return kw
+
+
+def _run_once(schema_of, obj, project, vec) -> Dict[str, Any]:
+    """one validate call in the mode the vector names + the observed post-conditions"""
+    schema = schema_of(vec["schema"])
+    snap0 = proj.snapshot(obj)
+    kind0 = type(obj).__name__
+    res = run_validate(schema, obj, project, **_kw(vec))
+    res["input_unchanged"] = proj.snapshot(obj) == snap0
+    try:
+        res["input_after"] = project(obj)
+    except Exception as exc:  # noqa: BLE001
+        res["input_after"] = {"unprojectable": repr(exc)}
+    res["input_type"] = kind0
+    return res
+
+
+def _postconditions(schema_of, vec, res, out_obj_builder) -> None:
+    """C03 observed on the implementation itself: re-submit what validate returned"""
+    if res["kind"] != "ok":
+        return
+    out = out_obj_builder()
+    stripped = schema_of(conc.strip(vec["schema"]))
+    r1 = run_validate(stripped, out, lambda x: None, lazy=True)
+    res["stripped_accepts"] = r1["kind"] == "ok"
+    res["stripped_kind"] = r1["kind"]
+    again = run_validate(schema_of(vec["schema"]), out, (proj.field if res["type"] == "Series" else proj.frame), lazy=True)
+    res["again_kind"] = again["kind"]
+    res["again_returned"] = again.get("returned")
+
+
+def observe_series_run(vec: Dict[str, Any]) -> Dict[str, Any]:
+    ser = conc.pd_series(vec["data"])
+    res = _run_once(conc.series_schema, ser, proj.field, vec)
+    if res["kind"] == "ok":
+        # rebuild the returned object from a second, identical call (the first result was projected)
+        ser2 = conc.pd_series(vec["data"])
+        schema = conc.series_schema(vec["schema"])
+
+        def again():
+            return schema.validate(ser2, **_kw(vec))
+
+        try:
+            _postconditions(conc.series_schema, vec, res, again)
+        except Exception as exc:  # noqa: BLE001
+            res["post_error"] = "%s: %s" % (type(exc).__name__, exc)
+    return res
+
+
+def observe_frame_run(vec: Dict[str, Any]) -> Dict[str, Any]:
+    df = conc.pd_frame(vec["data"])
+    res = _run_once(conc.frame_schema, df, proj.frame, vec)
+    if res["kind"] == "ok":
+        df2 = conc.pd_frame(vec["data"])
+        schema = conc.frame_schema(vec["schema"])
+
+        def again():
+            return schema.validate(df2, **_kw(vec))
+
+        try:
+            _postconditions(conc.frame_schema, vec, res, again)
+        except Exception as exc:  # noqa: BLE001
+            res["post_error"] = "%s: %s" % (type(exc).__name__, exc)
+    return res
+
+
+def observe_frame_both(vec: Dict[str, Any]) -> Dict[str, Any]:
+    """lazy, then eager, then lazy again on ONE schema object (a failed lazy run must not change later runs)"""
+    schema = conc.frame_schema(vec["schema"])
+    obs: Dict[str, Any] = {}
+    for mode in ("lazy", "eager", "lazy2"):
+        df = conc.pd_frame(vec["data"])
+        kw = _kw(vec)
+        kw["lazy"] = mode != "eager"
+        obs[mode] = run_validate(schema, df, proj.frame, **kw)
+    return obs
+
+
+def observe_series_both(vec: Dict[str, Any]) -> Dict[str, Any]:
+    schema = conc.series_schema(vec["schema"])
+    obs: Dict[str, Any] = {}
+    for mode in ("lazy", "eager", "lazy2"):
+        ser = conc.pd_series(vec["data"])
+        kw = _kw(vec)
+        kw["lazy"] = mode != "eager"
+        obs[mode] = run_validate(schema, ser, proj.field, **kw)
+    return obs
